@@ -63,6 +63,7 @@ def verif_files():
         out += glob.glob(os.path.join(VERIF, root, "*.v"))
     out += glob.glob(os.path.join(VERIF, "coq/Extract/*.ml"))
     out += glob.glob(os.path.join(VERIF, "harness/*.go")) + glob.glob(os.path.join(VERIF, "translator/*.go"))
+    out += glob.glob(os.path.join(VERIF, "harness_race/*.go"))
     out += [os.path.join(VERIF, "coq/_CoqProject")]
     return out
 
@@ -82,6 +83,8 @@ class BuildStatus:
         self.harness_ok = d.get("harness_ok", False)
         self.harness_log = d.get("harness_log", "")
         self.opgen_ok = d.get("opgen_ok", False)
+        self.race_ok = d.get("race_ok", False)
+        self.race_log = d.get("race_log", "")
         self.hygiene = d.get("hygiene", [])
         self.wall_s = d.get("wall_s", 0.0)
 
@@ -233,12 +236,28 @@ def build_all(verbose=False, force=False):
 
         # 4. harness from /repo with -tags verif
         hdir = os.path.join(VERIF, "harness")
-        shutil.copy(os.path.join(REPO, "go.sum"), os.path.join(hdir, "go.sum"))
-        rc, out = sh(["go", "build", "-tags", "verif", "-o", os.path.join(BUILD, "spgdrive"), "."],
+        # the module file is instantiated for the tree under test (default /repo; SPG_REPO for scratch copies)
+        modfile = os.path.join(BUILD, "harness.mod")
+        with open(os.path.join(hdir, "go.mod")) as f:
+            mod = f.read().replace("=> /repo", "=> " + REPO)
+        open(modfile, "w").write(mod)
+        shutil.copy(os.path.join(REPO, "go.sum"), os.path.join(BUILD, "harness.sum"))
+        rc, out = sh(["go", "build", "-modfile", modfile, "-tags", "verif", "-o", os.path.join(BUILD, "spgdrive"), "."],
                      cwd=hdir, env=GOENV, timeout=600)
         st.harness_ok = (rc == 0)
         st.harness_log = out[-4000:]
         say("spgdrive:", "ok" if rc == 0 else "FAILED\n" + out[-2000:])
+        # race-detector build of the sharing stress program (C14); needs cgo
+        rdir = os.path.join(VERIF, "harness_race")
+        rmod = os.path.join(BUILD, "race.mod")
+        with open(os.path.join(rdir, "go.mod")) as f:
+            open(rmod, "w").write(f.read().replace("=> /repo", "=> " + REPO))
+        shutil.copy(os.path.join(REPO, "go.sum"), os.path.join(BUILD, "race.sum"))
+        rc, out = sh(["go", "build", "-race", "-modfile", rmod, "-o", os.path.join(BUILD, "spgrace"), "."],
+                     cwd=rdir, env=dict(GOENV, CGO_ENABLED="1"), timeout=900)
+        st.race_ok = (rc == 0)
+        st.race_log = out[-3000:]
+        say("spgrace (-race):", "ok" if rc == 0 else "FAILED\n" + out[-2000:])
         rc, out = sh(["go", "build", "-tags", "verif", "-o", os.path.join(BUILD, "opgen"), "./cmd/opgen"],
                      cwd=REPO, env=GOENV, timeout=600)
         st.opgen_ok = (rc == 0)
